@@ -1,6 +1,7 @@
 package main
 
 import (
+	"go/constant"
 	"go/token"
 	"go/types"
 
@@ -16,11 +17,15 @@ func checkC19(p *Prog, r *Report) {
 	r.rule(r3RuleText)
 	r.rule("C19.who-writes: the element list SoftCollection.col is stored only by Add (as append(s.col, <one new element>)) and by Remove (as a splice of s.col), nowhere else in the package")
 	r.rule("C19.snapshot: the element Add appends is a SoftResource allocated in Add (never the argument), whose id is the argument's Get(\"id\"), whose Type is the collection's *Type, and which receives, for every attribute and relationship of the argument (full range over Attrs() and Rels()), AddAttr/AddRel with the element and Set under the same name with the value read under that name")
+	r.rule("C19.set-gate (shared with C01/C17): the Set that fills the snapshot stores an attribute value only when the kind and nullability of its Go type equal the attribute's, so only well-typed values reach a stored resource")
 	r.rule("R11 + C19.remove-first: Remove splices out index i under the guard col[i].GetID() == id and returns at once (only the first match is removed)")
 	r.rule("C19.collection-contract: Len returns the length of the backing list and At returns an element only for 0 <= i < len (all three Collection implementations; bounds decided by R3), nil otherwise")
 	r.rule("C19.field-guard: SoftResource.AddAttr / AddRel store the new field only after a complete scan of the names of BOTH maps (attributes and relationships) found no equal name, so a stored resource never exposes two fields of one name")
 	r.assume("the collection's Type has been set (property domain); non-nil receivers")
 	r.notCovered("equivalence with a list model over arbitrary operation histories; aliasing of slice values handed to Set (the property speaks of later Set calls, which replace values)")
+
+	nGate := r.importRules(func(r2 *Report) { kt := buildKindTable(p, r2); checkSetGate(p, r2, kt) }, "C19.set-gate", "R1.set-gate")
+	r.floor("imported set-gate obligations", nGate, 1)
 
 	pc := runR3(p, r, r3opts{entries: append(append([]string{}, e19...), "(*Resources).At", "(*Resources).Len", "(*WrapperCollection).At", "(*WrapperCollection).Len"),
 		explicit: wrapperDelegation, delegate: wrapperSitesDelegated, assumeGet: true, getNilImpl: "", floorSites: 40, floorFns: 20})
@@ -280,7 +285,11 @@ func checkRemoveFirst(p *Prog, r *Report, pc *panicChecker) {
 		if !guard && ha == la && ho == lo+1 {
 			// the index may come from a search helper "index of the first element
 			// with that ID, or -1"
-			if hc, ok := s.lo.(*ssa.Call); ok {
+			lo := s.lo
+			if ex, ok := lo.(*ssa.Extract); ok && ex.Index == 0 {
+				lo = ex.Tuple
+			}
+			if hc, ok := lo.(*ssa.Call); ok {
 				if h := hc.Common().StaticCallee(); h != nil && smallHelper(h) {
 					if j, ok := firstMatchIndex(h); ok && j < len(hc.Common().Args) && hc.Common().Args[j] == ssa.Value(f.Params[1]) {
 						guard = true
@@ -293,6 +302,11 @@ func checkRemoveFirst(p *Prog, r *Report, pc *panicChecker) {
 			asc := false
 			if _, isCall := s.lo.(*ssa.Call); isCall {
 				asc = true // a first-match helper: decided by firstMatchIndex
+			}
+			if ex, ok := s.lo.(*ssa.Extract); ok {
+				if _, isCall := ex.Tuple.(*ssa.Call); isCall {
+					asc = true
+				}
 			}
 			for _, hd := range f.Blocks {
 				l := naturalLoop(hd)
@@ -461,6 +475,18 @@ func checkFieldGuard(p *Prog, r *Report) {
 						}
 					}
 				}
+				if overFields && cmp && !exitsOK {
+					// a found-flag instead of the early return: still every path to
+					// the store takes the scan's exhaustion edge (the flag's merge is
+					// resolved per predecessor, so the path through the break is
+					// seen to skip the store)
+					if hif, ok := b.Instrs[len(b.Instrs)-1].(*ssa.If); ok && loop[b.Succs[0]] != loop[b.Succs[1]] {
+						exhaustTruth := !loop[b.Succs[0]]
+						exitsOK = mustPassEdge(f, mu.Block(), func(cond ssa.Value, truth bool) bool {
+							return cond == hif.Cond && truth == exhaustTruth
+						})
+					}
+				}
 				if overFields && cmp && exitsOK {
 					good = true
 				}
@@ -480,10 +506,19 @@ func firstMatchIndex(h *ssa.Function) (int, bool) {
 	n := 0
 	for _, b := range h.Blocks {
 		ret, ok := b.Instrs[len(b.Instrs)-1].(*ssa.Return)
-		if !ok || len(ret.Results) != 1 {
+		if !ok || len(ret.Results) < 1 || len(ret.Results) > 2 {
 			continue
 		}
-		if cv, ok := constInt(ret.Results[0]); ok {
+		if len(ret.Results) == 2 {
+			// (index, found): the constant false marks the not-found returns
+			c, ok := ret.Results[1].(*ssa.Const)
+			if !ok || c.Value == nil || c.Value.Kind() != constant.Bool {
+				return 0, false
+			}
+			if !constant.BoolVal(c.Value) {
+				continue
+			}
+		} else if cv, ok := constInt(ret.Results[0]); ok {
 			if cv >= 0 {
 				return 0, false
 			}
